@@ -26,6 +26,9 @@ def main(path):
             args += ["--dir", os.path.join(wd, "sqlite")]
         run_harness(args)
         consts = {k: (set(v) if isinstance(v, list) else v) for k, v in r["constants"].items()}
+        if r.get("trace_module") == "TraceCloud.tla":
+            consts.setdefault("PageSize", 0)
+            consts["Dev"] = set()          # judge against the repaired specification
         cfg = write_cfg(os.path.join(wd, "trace.cfg"), consts, spec="TSpec",
                         invariants=r.get("invariants") or
                         ["TypeOK", "ReplicaInvariant", "Converged", "NoOutOfSync",
@@ -39,6 +42,29 @@ def main(path):
             f"invariant={res['violated']}")
         log(f"VIOLATION property={pid} replay={path}")
         sys.exit(1)
+    if kind == "chain-rejection" and r.get("stimulus") is not None:
+        from chain_family import HARNESS
+        build_harness()
+        wd = workdir("replay")
+        stim = os.path.join(wd, "stim.ndjson")
+        with open(stim, "w") as f:
+            f.write(json.dumps(dict(r["stimulus"], id=0, backend=r["backend"])) + "\n")
+        trace = os.path.join(wd, "trace.ndjson")
+        run_harness(["backend-replay", "--in", stim, "--out", trace, "--dir", os.path.join(wd, "d"),
+                     "--git", os.path.join(HARNESS, "gitwrap.sh")])
+        cfg = write_cfg(os.path.join(wd, "trace.cfg"), {"WithSnapshots": r["backend"] != "local"},
+                        spec="TSpec", invariants=["VersionInvariant"], postcondition="Accepted")
+        res = tlc_trace(wd, "tv", "TraceChain.tla", cfg, trace)
+        if res["accepted"]:
+            log(f"OK: the recorded call sequence is accepted on the current tree ({path})")
+            sys.exit(0)
+        log(f"  rejected at event {res['rejected_at']}: {json.dumps(res['event'])[:400]}")
+        log(f"VIOLATION property={pid} replay={path}")
+        sys.exit(1)
+    # other families: show what was recorded and re-run the property's quick check, which
+    # regenerates and re-executes the same stimuli (same VERIF_SEED)
     log(f"replay file of kind {kind}: {r.get('what')}")
-    log(json.dumps(r, indent=1)[:3000])
-    sys.exit(1 if r.get("what") else 2)
+    log(json.dumps(r, indent=1)[:2000])
+    import importlib
+    mod = importlib.import_module(pid.lower())
+    mod.run("quick")
